@@ -59,7 +59,7 @@ func (p SkipDecoderTpl[T]) Skip(t TType, maxdepth int) error {
 		if err != nil {
 			return err
 		}
-		sz := int(binary.BigEndian.Uint32(b))
+		sz := int(int32(binary.BigEndian.Uint32(b))) // the wire size is a signed 32-bit value
 		if sz < 0 {
 			return errNegativeSize
 		}
